@@ -34,7 +34,7 @@ Fixpoint remove_items (s : schema) (extract : bool) (tr : typeref) (toRemove : p
                          if has && negb extract then go rest
                          else if has && ps_empty subset then
                            (* extracting an item that is selected with nothing beneath it *)
-                           remove_items s extract (list_elem t) toRemove item :: go rest
+                           remove_items s extract (list_elem t) subset item :: go rest
                          else if negb (ps_empty subset) then
                            remove_items s extract (list_elem t) subset item :: go rest
                          else if extract then go rest
@@ -57,7 +57,10 @@ Fixpoint remove_items (s : schema) (extract : bool) (tr : typeref) (toRemove : p
                          let e := PEField k in
                          let ft := field_type t k in
                          if ps_has [e] toRemove then
-                           if extract then (k, remove_items s extract ft toRemove val) :: go rest
+                           (* what is selected beneath the entry decides what is taken from it
+                              (remove.go as repaired: the walker used to descend with the
+                              selection of the PARENT level, F27) *)
+                           if extract then (k, remove_items s extract ft (ps_with_prefix e toRemove) val) :: go rest
                            else go rest
                          else
                            let subset := ps_with_prefix e toRemove in
